@@ -525,3 +525,164 @@ Proof. exact @tiea_logsumexp. Qed.
 Theorem C04_model_is_source_logmeanexp :
   forall (T : Type) (O : Ops T) (x : list T), src_logmeanexp O (vmax O) x = logmeanexp O x.
 Proof. exact @tiea_logmeanexp. Qed.
+
+(** the free [inf_norm] (third round of the loop translator; regenerated by tools/tiea/norm_loops.py): [is_matrix(x, nrows).unwrap()]
+    (a zero [nrows] and [Err] panic), per row the plain sum [s += x[i * ncols + j].abs()] from [0.] — every read is in bounds —,
+    then [statistics::max] of the row sums ([max_] = [vmax], tied in C08) *)
+From Compute Require Import Base.RsExprMut Generated.norm_loops Proofs.TieA_norm_loops.
+Theorem C04_model_is_source_inf_norm :
+  forall (T : Type) (O : Ops T) (x : list T) (nrows : nat), src_inf_norm O (vmax O) x (Z.of_nat nrows) = inf_norm O x nrows.
+Proof. exact @tiea_inf_norm. Qed.
+(** ** 3e. The binary64 bounds of [dot], [norm], [prod] WITHOUT the no-underflow hypothesis (extension)
+
+    A binary64 multiplication that does not overflow satisfies |fl(r) - r| <= 2^-53 |r| + 2^-1075 for EVERY exact product r,
+    normal, subnormal or zero (Flocq's [error_N_FLT]; 2^-1075 is half the spacing of the subnormal numbers); an addition
+    needs no absolute term (a sum of two doubles that lands in the subnormal range is exact).  The theorems of 3c / 3d are
+    the special case in which no product underflows (no absolute term is needed there); the ones below hold for EVERY input
+    whose computed result is finite. *)
+From Compute Require Import Proofs.C04ErrGen.
+
+(** the rounding of a real number to binary64 (round to nearest even, unbounded exponent range above): one relative error
+    2^-53 plus one absolute error 2^-1075, for every real argument *)
+Theorem C04_rounding_error_binary64_general :
+  forall r : R, Rabs (rnd64 r - r) <= / 2 ^ 53 * Rabs r + / 2 ^ 1075.
+Proof. intros r. rewrite <- u64_val, <- eta64_val. apply rnd64_gen. Qed.
+
+(** standard model with an absolute term: the unrolled sum of [n] terms each of which carries one relative error [u] and one
+    absolute error [eta] *)
+Theorem C04_sum_error_perturbed_abs_standard_model :
+  forall (u : R), 0 <= u -> forall (eta : R), 0 <= eta -> forall (F : R -> Prop) (rnd : R -> R),
+    F 0 ->
+    (forall a b, F a -> F b -> F (rnd (a + b)) /\ Rabs (rnd (a + b) - (a + b)) <= u * Rabs (a + b)) ->
+    forall c c' : list R, Forall F c' -> Forall2 (fun a a' => Rabs (a' - a) <= u * Rabs a + eta) c c' ->
+      Rabs (Reduce.sum (RndO rnd) c' - Rsum c)
+      <= ((1 + u) ^ S (length c) - 1) * Rsum (map Rabs c) + INR (length c) * eta * (1 + u) ^ length c.
+Proof. exact (fun u Hu eta _ => sum_error_perturbed_abs u Hu eta). Qed.
+
+(** binary64, NO underflow hypothesis: for every pair of slices of doubles for which [dot] returns a FINITE value (equal
+    lengths n; finiteness of the result forces every element, product and partial sum finite), with u = 2^-53,
+        | dot x y - Sigma x_i y_i |  <=  ((1+u)^(n+1) - 1) * Sigma |x_i y_i|  +  n * 2^-1075 * (1+u)^n
+    for the exact operation tree of the code (the same term [Reduce.dot] as in C04_dot_error_binary64) *)
+Theorem C04_dot_error_binary64_general :
+  forall (tbl : libm_table) (x y : list float) (d : float),
+    Reduce.dot (FO tbl) x y = Some d ->
+    finite d ->
+    Rabs (B2Rf d - Rdot (map B2Rf x) (map B2Rf y))
+    <= ((1 + / 2 ^ 53) ^ S (length x) - 1) * Rsum (map Rabs (map2 Rmult (map B2Rf x) (map B2Rf y)))
+       + INR (length x) * / 2 ^ 1075 * (1 + / 2 ^ 53) ^ length x.
+Proof. exact dot_F_error_general. Qed.
+
+(** ("lists of finite doubles" is a consequence, not a hypothesis) *)
+Theorem C04_dot_finite_operands_binary64 :
+  forall (tbl : libm_table) (x y : list float) (d : float),
+    Reduce.dot (FO tbl) x y = Some d -> finite d -> Forall finite x /\ Forall finite y.
+Proof. exact dot_finite_operands. Qed.
+
+(** [norm] = sqrt (dot x x), NO underflow hypothesis: the absolute error a = n * 2^-1075 * (1+u)^n of the sum of squares goes
+    through the square root as sqrt a (a square that underflows to 0 loses an element of magnitude up to 2^-537.5: the term
+    is sharp in order of magnitude), then one more rounding (which cannot underflow):
+        | norm x - ||x|| |  <=  ((1+u)^(n+2) - 1) * ||x||  +  (1+u) * sqrt (n * 2^-1075 * (1+u)^n) *)
+Theorem C04_norm_error_binary64_general :
+  forall (tbl : libm_table) (x : list float),
+    finite (Reduce.norm (FO tbl) x) ->
+    Rabs (B2Rf (Reduce.norm (FO tbl) x) - R_sqrt.sqrt (Rsum (map (fun a => a * a) (map B2Rf x))))
+    <= ((1 + / 2 ^ 53) ^ S (S (length x)) - 1) * R_sqrt.sqrt (Rsum (map (fun a => a * a) (map B2Rf x)))
+       + (1 + / 2 ^ 53) * R_sqrt.sqrt (INR (length x) * / 2 ^ 1075 * (1 + / 2 ^ 53) ^ length x).
+Proof. exact norm_F_error_general. Qed.
+
+(** [prod] (left fold from 1), NO underflow hypothesis: the absolute error 2^-1075 committed by the k-th multiplication is
+    multiplied by the later factors x_{k+1} .. x_n; [later_products l] = Sigma_{k=1..n} | Pi_{j>k} l_j | *)
+Theorem C04_later_products_def :
+  forall (a : R) (l : list R),
+    later_products [] = 0 /\ later_products (a :: l) = Rabs (Rprod l) + later_products l.
+Proof. intros; split; reflexivity. Qed.
+Theorem C04_prod_error_binary64_general :
+  forall (tbl : libm_table) (x : list float),
+    finite (Reduce.prod (FO tbl) x) ->
+    Rabs (B2Rf (Reduce.prod (FO tbl) x) - Rprod (map B2Rf x))
+    <= ((1 + / 2 ^ 53) ^ length x - 1) * Rabs (Rprod (map B2Rf x))
+       + (1 + / 2 ^ 53) ^ length x * / 2 ^ 1075 * later_products (map B2Rf x).
+Proof. exact prod_F_error_general. Qed.
+
+Example C04_example_error_general :
+  (* inputs the theorems of 3c / 3d exclude: the product 2^-600 * 2^-500 underflows (to 0), 2^-1074 * 2^-1 is a tie at the
+     bottom of the subnormal range; dot, norm and prod are finite *)
+  let x := [0x1p-600; 3; 0x1p-1074]%float in
+  let y := [0x1p-500; 0.5; 0x1p-1]%float in
+  (exists d, Reduce.dot FO0 x y = Some d /\ finite d) /\
+  ~ Forall2 (fun a b => B2Rf a * B2Rf b = 0 \/ / 2 ^ 1022 <= Rabs (B2Rf a * B2Rf b)) x y /\
+  finite (Reduce.norm FO0 x) /\ finite (Reduce.prod FO0 x).
+Proof. exact general_example. Qed.
+
+(** one bound that contains both 3c and the general theorem: the absolute term charges 2^-1075 only to the products that DO
+    underflow.  [underflow_cost r] is 0 when r = 0 or |r| >= 2^-1022 and 2^-1075 otherwise, so the sum of the costs is
+    2^-1075 times the number of underflowing products: 0 under the hypothesis of C04_dot_error_binary64, at most n * 2^-1075
+    always *)
+From Compute Require Import Proofs.C04ErrGenCount.
+Theorem C04_underflow_cost_def :
+  forall r : R,
+    ((r = 0 \/ / 2 ^ 1022 <= Rabs r) -> underflow_cost r = 0) /\
+    (~ (r = 0 \/ / 2 ^ 1022 <= Rabs r) -> underflow_cost r = / 2 ^ 1075).
+Proof. exact underflow_cost_spec. Qed.
+Theorem C04_underflow_cost_sum :
+  forall c : list R,
+    (Forall (fun r => r = 0 \/ / 2 ^ 1022 <= Rabs r) c -> Rsum (map underflow_cost c) = 0) /\
+    Rsum (map underflow_cost c) <= INR (length c) * / 2 ^ 1075.
+Proof. exact (fun c => conj (Rsum_cost_zero c) (Rsum_cost_le c)). Qed.
+Theorem C04_dot_error_binary64_counted :
+  forall (tbl : libm_table) (x y : list float) (d : float),
+    Reduce.dot (FO tbl) x y = Some d ->
+    finite d ->
+    Rabs (B2Rf d - Rdot (map B2Rf x) (map B2Rf y))
+    <= ((1 + / 2 ^ 53) ^ S (length x) - 1) * Rsum (map Rabs (map2 Rmult (map B2Rf x) (map B2Rf y)))
+       + Rsum (map underflow_cost (map2 Rmult (map B2Rf x) (map B2Rf y))) * (1 + / 2 ^ 53) ^ length x.
+Proof. exact dot_F_error_counted. Qed.
+(* ======================================================================================================== *)
+(** ** extension (one contiguous block): the infinity norm on binary64 (Proofs/C04ErrInf.v).
+    [inf_norm(x, nrows)] is the MATRIX infinity norm: per row [s = 0.; s += |x[i*ncols+j]|], then [max] of the row sums.
+    [abs] and [max] commit no rounding and the first addition 0 + |a_i0| of a row is exact; the other ncols - 1
+    additions of a row are rounded.  So the norm is exact for a single column (the vector case) and carries the
+    relative error (1 + 2^-53)^(ncols-1) - 1 otherwise.  NaN handling as the model has it: on finite data no NaN can
+    arise (the result is a finite non-negative double or +infinity when a row sum overflows). *)
+From Compute Require Import Proofs.C04ErrInf.
+Local Open Scope R_scope.
+
+(** every matrix of finite doubles: the call succeeds, returns one of the computed row sums, never NaN and never
+    negative; when the result is finite it is within the stated relative error of the largest exact row sum *)
+Theorem C04_inf_norm_error_binary64 :
+  forall (tbl : libm_table) (x : list float) (nrows ncols : nat),
+    nrows <> 0%nat -> length x = (nrows * ncols)%nat -> Forall finite x ->
+    exists r, inf_norm (FO tbl) x nrows = Some r /\
+      (exists i, (i < nrows)%nat /\
+         r = fold_left (add (FO tbl)) (map (abs (FO tbl)) (row_of x ncols i)) (zero (FO tbl))) /\
+      ((finite r /\ 0 <= B2Rf r) \/ Flocq.IEEE754.PrimFloat.Prim2B r = Flocq.IEEE754.BinarySingleNaN.B754_infinity false) /\
+      (finite r -> forall M, is_max M (abs_row_sums (map B2Rf x) nrows ncols) ->
+         Rabs (B2Rf r - M) <= ((1 + / 2 ^ 53) ^ (ncols - 1) - 1) * M).
+Proof. exact inf_norm_F_error. Qed.
+
+(** a single column ([nrows = length x], the vector case): NO rounding.  For every non-empty list of finite doubles
+    the result is finite and its real value IS the maximum of the absolute values (and it is one of them) *)
+Theorem C04_inf_norm_exact_binary64 :
+  forall (tbl : libm_table) (x : list float),
+    x <> [] -> Forall finite x ->
+    exists r, inf_norm (FO tbl) x (length x) = Some r /\ finite r /\
+      is_max (B2Rf r) (map (fun a => Rabs (B2Rf a)) x).
+Proof. exact inf_norm_F_exact. Qed.
+
+(** [Matrix::inf_norm] = [self.abs().sum_rows().max()]: each row of |a_ij| goes through the 8-way unrolled [sum]
+    (C04_sum_error_binary64), so the constant is (1 + 2^-53)^ncols - 1.  Every well-formed matrix of finite doubles *)
+Theorem C04_mat_inf_norm_error_binary64 :
+  forall (tbl : libm_table) (m : mat float),
+    wf_mat m -> Forall finite (dat m) ->
+    exists r, mat_inf_norm (FO tbl) m = Some r /\
+      ((finite r /\ 0 <= B2Rf r) \/ Flocq.IEEE754.PrimFloat.Prim2B r = Flocq.IEEE754.BinarySingleNaN.B754_infinity false) /\
+      (finite r -> forall M, is_max M (abs_row_sums (map B2Rf (dat m)) (nr m) (nc m)) ->
+         Rabs (B2Rf r - M) <= ((1 + / 2 ^ 53) ^ nc m - 1) * M).
+Proof. exact mat_inf_norm_F_error. Qed.
+
+Theorem C04_example_inf_norm_binary64 :
+  let x := [1; -2; 0x1.999999999999ap-4; -4; 5; 0x1p-1074]%float in
+  Forall finite x /\ length x = (2 * 3)%nat /\
+  (exists r, inf_norm FO0 x 2 = Some r /\ finite r) /\
+  inf_norm FO0 [0x1.fffffffffffffp+1023; (-0x1.fffffffffffffp+1023)]%float 1 = Some infinity.
+Proof. exact inf_norm_example. Qed.
